@@ -217,6 +217,9 @@ func (v *Voucher) VerifyDeviceCertChain(roots *x509.CertPool) error {
 	}
 	chain := make([]*x509.Certificate, len(*v.CertChain))
 	for i, cert := range *v.CertChain {
+		if cert == nil {
+			return errors.New("device cert chain contains a null certificate")
+		}
 		chain[i] = (*x509.Certificate)(cert)
 	}
 	return verifyCertChain(chain, roots)
